@@ -175,6 +175,50 @@ def check_forward_fragmented(bundle, obs):
     return sorted(set(problems)), detail
 
 
+def check_late_route(bundle, obs):
+    ''' The bundle arrives while no transmit route matches its destination; routes are learned afterwards (a peer is seen, a
+    session comes up).  Whatever the node does with the bundle then, a copy that leaves carries the received hop count plus
+    one and one Previous Node block -- however many attempts it took. '''
+    import re
+    from vf.world.sim import Sim
+    from vf import bp_harness as bh
+    from bp.config import TxRouteItem
+    sim = Sim(0, 'eager')
+    node = bh.BpNode(sim, NODE, rx_routes=[(r'dtn://next-.*', 'forward')], tx_routes=[])
+    enc = bpv7.encode(bundle)
+    problems = []
+    err = node.recv(enc)
+    sim.settle(5000)
+    if err is not None:
+        problems.append('receive raised %s: %s' % (type(err).__name__, err))
+    for (pattern, tag) in ((r'dtn://elsewhere/.*', 'x'), (r'dtn://nowhere/.*', 'y'), (r'dtn://next-.*', 'a')):
+        with sim.as_node(node.name):
+            node.agent.add_tx_route(TxRouteItem(eid_pattern=re.compile(pattern), next_nodeid='dtn://n/', cl_type='fake', raw_config={'r': tag}))
+        sim.world.advance_to(sim.world.now_ns + 250 * 1000000)
+        sim.settle(5000)
+    obs['late_route_runs'] = obs.get('late_route_runs', 0) + 1
+    if sim.world.callback_errors:
+        problems.append('loop callback raised %s: %s' % (sim.world.callback_errors[0].exc_type, str(sim.world.callback_errors[0].exc)[:80]))
+    base = (bundle['primary']['src'], bundle['primary']['create_time'], bundle['primary']['seqno'])
+    hops_in = sorted(cw.parse_all(blk['data']).to_python() for blk in bundle['blocks'] if blk['type'] == 10)
+    for (_no, _raw, data) in node.cl.sent:
+        try:
+            dec, _probs = bpv7.decode(data)
+        except bpv7.DecodeError as derr:
+            problems.append('an output is not decodable: %s' % derr)
+            continue
+        if (dec['primary']['src'], dec['primary']['create_time'], dec['primary']['seqno']) != base:
+            continue
+        obs['late_route_outputs'] = obs.get('late_route_outputs', 0) + 1
+        hops_out = sorted(cw.parse_all(blk['data']).to_python() for blk in dec['blocks'] if blk['type'] == 10)
+        if hops_out != sorted([lim, cnt + 1] for (lim, cnt) in hops_in):
+            problems.append('forwarded once a route was learned: hop count(s) %r, received %r' % (hops_out, hops_in))
+        nprev = len([blk for blk in dec['blocks'] if blk['type'] == 6])
+        if nprev != 1:
+            problems.append('forwarded once a route was learned: %d Previous Node blocks' % nprev)
+    return problems, dict(received=enc.hex())
+
+
 def check_forward(bundle, obs, shared=None):
     ''' :param shared: (sim, node) to reuse one agent for a history of forwards. '''
     sim, node = shared if shared is not None else make_node()
@@ -323,6 +367,10 @@ def run_case(case):
             sample = dict(combo=combo, received=detail['received'][:300], sent=detail.get('sent', '')[:300])
         for item in problems:
             violations.append(dict(key=classify_one(item, detail, bundle), what=item, detail=dict(detail, combo=combo)))
+        if idx % 7 == 3 and shared is None:
+            lproblems, ldetail = check_late_route(bundle, obs)
+            for item in lproblems:
+                violations.append(dict(key=None, what=item, detail=dict(ldetail, combo=combo)))
         if idx % 5 == 0 and not problems and shared is None:
             # (a second simulated world cannot run beside the shared agent's, so not in the history cases)
             fproblems, fdetail = check_forward_fragmented(bundle, obs)
